@@ -228,7 +228,58 @@ fn lexer_agrees_with_parser(x: &str, cmd: &Command) -> Vec<String> {
     out
 }
 
+/// Canonical text of a value `parse_json` returned (the Lean driver prints the same form): numbers
+/// are `i<decimal>` when serde_json holds an integer and `F` otherwise (the f64 itself is std's
+/// business), strings are hex, object members are sorted by key (serde_json's map is a BTreeMap).
+pub fn canon_json(v: &anda_kip::Json, out: &mut String) {
+    use anda_kip::Json;
+    match v {
+        Json::Null => out.push('n'),
+        Json::Bool(true) => out.push('t'),
+        Json::Bool(false) => out.push('f'),
+        Json::Number(n) => {
+            if let Some(i) = n.as_i64() {
+                out.push_str(&format!("i{i}"));
+            } else if let Some(u) = n.as_u64() {
+                out.push_str(&format!("i{u}"));
+            } else {
+                out.push('F');
+            }
+        }
+        Json::String(s) => {
+            out.push('s');
+            out.push_str(&vh_common::hex(s.as_bytes()));
+        }
+        Json::Array(items) => {
+            out.push('[');
+            for (i, x) in items.iter().enumerate() {
+                if i > 0 {
+                    out.push(',');
+                }
+                canon_json(x, out);
+            }
+            out.push(']');
+        }
+        Json::Object(m) => {
+            out.push('{');
+            let mut keys: Vec<&String> = m.keys().collect();
+            keys.sort();
+            for (i, k) in keys.iter().enumerate() {
+                if i > 0 {
+                    out.push(',');
+                }
+                out.push('s');
+                out.push_str(&vh_common::hex(k.as_bytes()));
+                out.push(':');
+                canon_json(&m[*k], out);
+            }
+            out.push('}');
+        }
+    }
+}
+
 pub struct Parsed {
+    json_canon: String,
     lexer_mismatch: Vec<String>,
     kip: Res,
     kql: Res,
@@ -254,7 +305,11 @@ fn parse_all(x: &str) -> Parsed {
     let (kql, q) = guarded(|| anda_kip::parse_kql(x));
     let (kml, m) = guarded(|| anda_kip::parse_kml(x));
     let (meta, me) = guarded(|| anda_kip::parse_meta(x));
-    let (json, _) = guarded(|| anda_kip::parse_json(x));
+    let (json, jv) = guarded(|| anda_kip::parse_json(x));
+    let mut json_canon = String::new();
+    if let Some(v) = &jv {
+        canon_json(v, &mut json_canon);
+    }
     let micros = t0.elapsed().as_micros();
     // deterministic: the same text gives the same answer (tree or error, message included)
     if let Ok(first) = catch_unwind(AssertUnwindSafe(|| anda_kip::parse_kip(x))) {
@@ -351,7 +406,7 @@ fn parse_all(x: &str) -> Parsed {
             }
         }
     }
-    Parsed { lexer_mismatch, kip, kql, kml, meta, json, cmd, problems, micros }
+    Parsed { json_canon, lexer_mismatch, kip, kql, kml, meta, json, cmd, problems, micros }
 }
 
 /// JSON encode / decode of the tree (run on a roomy stack: the recursion here is serde's, not the
@@ -466,7 +521,7 @@ pub fn eval(x: &str, stack: usize) -> Value {
     };
     json!({
         "kip": p.kip.show(), "kql": p.kql.show(), "kml": p.kml.show(), "meta": p.meta.show(), "json": p.json.show(),
-        "family": family, "tree": tree, "problems": p.problems, "micros": p.micros as u64, "lexer_mismatch": p.lexer_mismatch,
+        "family": family, "tree": tree, "problems": p.problems, "micros": p.micros as u64, "lexer_mismatch": p.lexer_mismatch, "json_canon": p.json_canon,
     })
 }
 
